@@ -16,7 +16,7 @@ using dsplib::real_t;
 inline std::vector<double> gen_signal(uint32_t seed, size_t n, double scale = 1.0) {
     Rng r(mix(seed, 0x5161));
     std::vector<double> x(n);
-    const int type = int(r.below(6));
+    const int type = int(r.below(7));
     switch (type) {
     case 0:   // white gaussian
         for (auto& v : x) {
@@ -58,6 +58,18 @@ inline std::vector<double> gen_signal(uint32_t seed, size_t n, double scale = 1.
         const double na = r.logu(1e-4, 1);
         for (size_t i = 0; i < n; ++i) {
             x[i] = std::sin(6.283185307179586 * f * double(i) + ph) + na * r.normal();
+        }
+        break;
+    }
+    case 6: {   // ordinary-level noise with rare bursts 120 dB hotter (large dynamic range inside one stream)
+        const double p = r.logu(1e-4, 1e-2);
+        int hot = 0;
+        for (auto& v : x) {
+            if (hot == 0 && r.chance(p)) {
+                hot = int(r.range(1, 8));
+            }
+            v = r.normal() * (hot > 0 ? 1e6 : 1.0);
+            hot -= (hot > 0);
         }
         break;
     }
@@ -225,6 +237,67 @@ struct Cmp {
     double scale{1};
     std::string what;
 };
+
+// Same, but the tolerance follows the LOCAL level of the reference: rel_tol x max |ref| over the last `window` elements
+// (never below 1e-6 of the global scale). A deviation that is small against a loud burst elsewhere in the stream but large
+// against the signal around it is a deviation. Rounding-level differences of a correct re-implementation after a burst of
+// 120 dB are ~1e-16 x 1e6 = 1e-10 of the local level, still below rel_tol = 1e-9.
+inline Cmp compare_stream_local(const std::vector<double>& got, const std::vector<double>& ref, double rel_tol, size_t window) {
+    Cmp c;
+    if (got.size() != ref.size()) {
+        c.ok = false;
+        c.what = fmt("length %zu != reference %zu", got.size(), ref.size());
+        return c;
+    }
+    double gscale = 0;
+    for (double v : ref) {
+        if (std::isfinite(v) && std::fabs(v) > gscale) {
+            gscale = std::fabs(v);
+        }
+    }
+    if (gscale == 0) {
+        gscale = 1;
+    }
+    c.scale = gscale;
+    window = std::max<size_t>(window, 16);
+    // sliding maximum by blocks: local scale of element i = max over blocks [b-1, b] with block length `window`
+    const size_t nb = ref.size() / window + 1;
+    std::vector<double> bmax(nb, 0.0);
+    for (size_t i = 0; i < ref.size(); ++i) {
+        if (std::isfinite(ref[i])) {
+            bmax[i / window] = std::max(bmax[i / window], std::fabs(ref[i]));
+        }
+    }
+    for (size_t i = 0; i < ref.size(); ++i) {
+        const double x = got[i];
+        const double y = ref[i];
+        if (!std::isfinite(x) || !std::isfinite(y)) {
+            const bool same = (std::isnan(x) && std::isnan(y)) || (x == y);
+            if (!same) {
+                c.ok = false;
+                c.at = i;
+                c.what = "non-finite mismatch";
+                return c;
+            }
+            continue;
+        }
+        const size_t b = i / window;
+        double local = bmax[b];
+        if (b > 0) {
+            local = std::max(local, bmax[b - 1]);
+        }
+        local = std::max(local, 1e-6 * gscale);
+        if (std::fabs(x - y) > rel_tol * local) {
+            c.ok = false;
+            c.at = i;
+            c.a = x;
+            c.b = y;
+            c.what = fmt("value %.17g != reference %.17g (local scale %.3g, global %.3g)", x, y, local, gscale);
+            return c;
+        }
+    }
+    return c;
+}
 
 inline Cmp compare_stream(const std::vector<double>& got, const std::vector<double>& ref, double rel_tol) {
     Cmp c;
